@@ -322,6 +322,26 @@ macro_rules! cast {
 /// Like [`typed_tag`] but with the kind chosen by the caller (`kind` is the
 /// specification's type number).
 pub fn typed_tag_as(rec: &mut Rec, p: &str, tag: &Generic, kind: u32, opts: &MbiOpts) {
+    typed_tag_fields(rec, p, tag, kind, opts);
+    // a second object of the same kind is alive (the decoy's tag): equality,
+    // ordering and hashing between the two obey their laws and touch nothing
+    // outside either tag
+    let ck = format!("{p}.cast");
+    let cast_ok = matches!(rec.t.lines.iter().rev().find(|(k, _)| *k == ck), Some((_, Val::Ext(..))));
+    if cast_ok {
+        if let Some(d) = crate::warm::decoy_mbi() {
+            let other = catch(|| d.tags().find(|t| u32::from(t.header().typ) == kind)).flatten();
+            if let Some(o) = other {
+                let v = crate::relate::relate(kind, tag, o, false);
+                if v != Val::None {
+                    rec.t.push(format!("{p}.rel"), v);
+                }
+            }
+        }
+    }
+}
+
+fn typed_tag_fields(rec: &mut Rec, p: &str, tag: &Generic, kind: u32, opts: &MbiOpts) {
     let d = opts.debug;
     match kind {
         0 => {
@@ -527,6 +547,11 @@ pub fn typed_tag_as(rec: &mut Rec, p: &str, tag: &Generic, kind: u32, opts: &Mbi
                                 u!(rec, q, "addralign", s.addralign());
                                 u!(rec, q, "~end", s.end_address());
                                 u!(rec, q, "len_after", it.len());
+                                if let Some(ds) = crate::warm::decoy_mbi().and_then(|m| catch(|| m.elf_sections_tag().and_then(|t| t.sections().next())).flatten()) {
+                                    let v = crate::relate::relate_sections(&s, &ds);
+                                    let v2 = crate::relate::relate_sections(&ds, &s);
+                                    rec.t.push(format!("{q}.rel"), if v == v2 { v } else { Val::B(false) });
+                                }
                                 if names_ok {
                                     rec.call(format!("{q}.name"), || match s.name() {
                                         Ok(n) => Val::Txt(crate::bytes::hex(n.as_bytes())),
